@@ -1,3 +1,250 @@
 import Srctools.Wire
-/-! stub driver (echo) — replaced when the property's model exists. -/
-def main : IO Unit := Wire.main fun j => pure j
+import Srctools.Model.C06
+/-! Driver for the C06 model (VMF export / parse at the keyvalues-tree level).
+requests (text = arrays of code points, KV = [0,name,value] | [1,name,[children]]):
+  {"op":"export","opts":{"minimal":b,"multiblend":b,"inc":b},"map":MAP}  → {"tree":[KV…]}
+  {"op":"parse","preserve":b,"tree":[KV…]}                                → {"ok":MAP} | {"err":"name"}
+  {"op":"project","opts":…,"map":MAP}                                     → {"map":MAP}
+  {"op":"roundtrip","opts":…,"map":MAP}   parseTree true (exportTree o m)  → {"ok":MAP} | {"err":…}
+MAP is the structure produced by harness/c06_gen.dump_map.
+-/
+open Lean C06
+
+namespace Drv06
+
+def str (j : Json) : Except String Str := Wire.strOfCodes j
+def ostr (j : Json) : Except String (Option Str) := if j.isNull then pure none else some <$> str j
+def jstr (s : Str) : Json := Wire.codesOfStr s
+def jostr : Option Str → Json
+  | none => Json.null
+  | some s => jstr s
+def jint (i : Int) : Json := Json.num (JsonNumber.fromInt i)
+def jbool (b : Bool) : Json := Json.bool b
+
+def fld (j : Json) (k : String) : Except String Json := j.getObjVal? k
+def fInt (j : Json) (k : String) : Except String Int := do (← fld j k).getInt?
+def fBool (j : Json) (k : String) : Except String Bool := do (← fld j k).getBool?
+def fStr (j : Json) (k : String) : Except String Str := do str (← fld j k)
+def fArr (j : Json) (k : String) : Except String (List Json) := do pure (← (← fld j k).getArr?).toList
+def arr (j : Json) : Except String (List Json) := do pure (← j.getArr?).toList
+def jarr (l : List Json) : Json := Json.arr l.toArray
+
+def v3 (j : Json) : Except String V3 := do
+  match ← arr j with
+  | [a, b, c] => pure ⟨← str a, ← str b, ← str c⟩
+  | _ => throw "vec: need 3"
+def jv3 (v : V3) : Json := jarr [jstr v.x, jstr v.y, jstr v.z]
+def v4 (j : Json) : Except String V4 := do
+  match ← arr j with
+  | [a, b, c, d] => pure ⟨← str a, ← str b, ← str c, ← str d⟩
+  | _ => throw "vec4: need 4"
+def jv4 (v : V4) : Json := jarr [jstr v.x, jstr v.y, jstr v.z, jstr v.w]
+def fV3 (j : Json) (k : String) : Except String V3 := do v3 (← fld j k)
+def ints (j : Json) : Except String (List Int) := do (← arr j).mapM (·.getInt?)
+def jints (l : List Int) : Json := jarr (l.map jint)
+
+partial def kvOf (j : Json) : Except String KV := do
+  match ← arr j with
+  | [t, n, v] =>
+    let tag ← t.getNat?
+    let name ← str n
+    if tag == 0 then pure (.leaf name (← str v))
+    else pure (.block name (← (← arr v).mapM kvOf))
+  | _ => throw "kv: need 3 elements"
+
+partial def jkv : KV → Json
+  | .leaf n v => jarr [Json.num 0, jstr n, jstr v]
+  | .block n cs => jarr [Json.num 1, jstr n, jarr (cs.map jkv)]
+
+partial def visOf (j : Json) : Except String Vis := do
+  pure (.mk (← fStr j "name") (← fInt j "id") (← fV3 j "color") (← (← fArr j "children").mapM visOf))
+
+partial def jvis : Vis → Json
+  | .mk name id color children =>
+    Json.mkObj [("name", jstr name), ("id", jint id), ("color", jv3 color), ("children", jarr (children.map jvis))]
+
+def outOf (j : Json) : Except String Out := do
+  pure { output := ← fStr j "output", instOut := ← ostr (← fld j "inst_out"), target := ← fStr j "target",
+         input := ← fStr j "input", instIn := ← ostr (← fld j "inst_in"), params := ← fStr j "params",
+         delay := ← fStr j "delay", times := ← fInt j "times", comma := ← fBool j "comma" }
+
+def jout (o : Out) : Json :=
+  Json.mkObj [("output", jstr o.output), ("inst_out", jostr o.instOut), ("target", jstr o.target),
+    ("input", jstr o.input), ("inst_in", jostr o.instIn), ("params", jstr o.params),
+    ("delay", jstr o.delay), ("times", jint o.times), ("comma", jbool o.comma)]
+
+def vertOf (j : Json) : Except String DVert := do
+  let cj ← fld j "colors"
+  let colors ← if cj.isNull then pure none else some <$> (← arr cj).mapM v3
+  pure { normal := ← fV3 j "normal", dist := ← fStr j "dist", offset := ← fV3 j "offset",
+         offsetNorm := ← fV3 j "offset_norm", alpha := ← fStr j "alpha", triA := ← fInt j "tri_a",
+         triB := ← fInt j "tri_b", blend := ← v4 (← fld j "blend"), malpha := ← v4 (← fld j "malpha"), colors }
+
+def jvert (v : DVert) : Json :=
+  Json.mkObj [("normal", jv3 v.normal), ("dist", jstr v.dist), ("offset", jv3 v.offset),
+    ("offset_norm", jv3 v.offsetNorm), ("alpha", jstr v.alpha), ("tri_a", jint v.triA), ("tri_b", jint v.triB),
+    ("blend", jv4 v.blend), ("malpha", jv4 v.malpha),
+    ("colors", match v.colors with
+      | none => Json.null
+      | some cs => jarr (cs.map jv3))]
+
+def dispOf (j : Json) : Except String Disp := do
+  pure { power := (← fInt j "power").toNat, pos := ← fV3 j "pos", elev := ← fStr j "elev",
+         coll := (← fInt j "coll").toNat, subdiv := ← fBool j "subdiv", allowed := ← ints (← fld j "allowed"),
+         verts := ← (← fArr j "verts").mapM vertOf }
+
+def jdisp (d : Disp) : Json :=
+  Json.mkObj [("power", jint d.power), ("pos", jv3 d.pos), ("elev", jstr d.elev), ("coll", jint d.coll),
+    ("subdiv", jbool d.subdiv), ("allowed", jints d.allowed), ("verts", jarr (d.verts.map jvert))]
+
+def uvOf (j : Json) : Except String UV := do
+  match ← arr j with
+  | [a, b, c, d, e] => pure ⟨← str a, ← str b, ← str c, ← str d, ← str e⟩
+  | _ => throw "uv: need 5"
+def juv (a : UV) : Json := jarr [jstr a.x, jstr a.y, jstr a.z, jstr a.offset, jstr a.scale]
+
+def sideOf (j : Json) : Except String Side := do
+  let (p0, p1, p2) ← match ← fArr j "planes" with
+    | [a, b, c] => pure (← v3 a, ← v3 b, ← v3 c)
+    | _ => throw "planes: need 3"
+  let pj ← fld j "points"
+  let points ← if pj.isNull then pure none else some <$> (← arr pj).mapM v3
+  let dj ← fld j "disp"
+  let disp ← if dj.isNull then pure none else some <$> dispOf dj
+  pure { id := ← fInt j "id", p0, p1, p2, mat := ← fStr j "mat", uaxis := ← uvOf (← fld j "uaxis"),
+         vaxis := ← uvOf (← fld j "vaxis"), rot := ← fStr j "rot", lightmap := ← fInt j "lightmap",
+         smooth := ← fInt j "smooth", points, disp }
+
+def jside (s : Side) : Json :=
+  Json.mkObj [("id", jint s.id), ("planes", jarr [jv3 s.p0, jv3 s.p1, jv3 s.p2]), ("mat", jstr s.mat),
+    ("uaxis", juv s.uaxis), ("vaxis", juv s.vaxis), ("rot", jstr s.rot), ("lightmap", jint s.lightmap),
+    ("smooth", jint s.smooth),
+    ("points", match s.points with
+      | none => Json.null
+      | some ps => jarr (ps.map jv3)),
+    ("disp", match s.disp with
+      | none => Json.null
+      | some d => jdisp d)]
+
+def solidOf (j : Json) : Except String Solid := do
+  let gj ← fld j "group"
+  let group ← if gj.isNull then pure none else some <$> gj.getInt?
+  pure { id := ← fInt j "id", sides := ← (← fArr j "sides").mapM sideOf, visIds := ← ints (← fld j "vis_ids"),
+         hidden := ← fBool j "hidden", group, visShown := ← fBool j "vis_shown", visAuto := ← fBool j "vis_auto",
+         cordon := ← fBool j "cordon", color := ← fV3 j "color" }
+
+def jsolid (s : Solid) : Json :=
+  Json.mkObj [("id", jint s.id), ("sides", jarr (s.sides.map jside)), ("vis_ids", jints s.visIds),
+    ("hidden", jbool s.hidden),
+    ("group", match s.group with
+      | none => Json.null
+      | some g => jint g),
+    ("vis_shown", jbool s.visShown), ("vis_auto", jbool s.visAuto), ("cordon", jbool s.cordon),
+    ("color", jv3 s.color)]
+
+def entOf (j : Json) : Except String Ent := do
+  let keys ← (← fArr j "keys").mapM fun kv => do
+    match ← arr kv with
+    | [k, v] => pure (← str k, ← str v)
+    | _ => throw "key: need 2"
+  let fixup ← (← fArr j "fixup").mapM fun f => do
+    match ← arr f with
+    | [a, b, c] => pure ({ var := ← str a, value := ← str b, id := ← c.getInt? } : Fix)
+    | _ => throw "fixup: need 3"
+  pure { id := ← fInt j "id", keys, fixup, outputs := ← (← fArr j "outputs").mapM outOf,
+         solids := ← (← fArr j "solids").mapM solidOf, hidden := ← fBool j "hidden",
+         groups := ← ints (← fld j "groups"), visIds := ← ints (← fld j "vis_ids"),
+         visShown := ← fBool j "vis_shown", visAuto := ← fBool j "vis_auto", color := ← fV3 j "color",
+         logicalPos := ← fStr j "logical_pos", comments := ← fStr j "comments" }
+
+def jent (e : Ent) : Json :=
+  Json.mkObj [("id", jint e.id), ("keys", jarr (e.keys.map fun kv => jarr [jstr kv.1, jstr kv.2])),
+    ("fixup", jarr (e.fixup.map fun f => jarr [jstr f.var, jstr f.value, jint f.id])),
+    ("outputs", jarr (e.outputs.map jout)), ("solids", jarr (e.solids.map jsolid)), ("hidden", jbool e.hidden),
+    ("groups", jints e.groups), ("vis_ids", jints e.visIds), ("vis_shown", jbool e.visShown),
+    ("vis_auto", jbool e.visAuto), ("color", jv3 e.color), ("logical_pos", jstr e.logicalPos),
+    ("comments", jstr e.comments)]
+
+def axisOf (s : Str) : Nat := if s == ['x'] then 0 else if s == ['y'] then 1 else if s == ['z'] then 2 else 3
+def jaxis (a : Nat) : Json := jstr (if a == 0 then ['x'] else if a == 1 then ['y'] else if a == 2 then ['z'] else ['?'])
+
+def viewOf (j : Json) : Except String View := do
+  if ← fBool j "3d" then pure (.v3 (← fV3 j "pos") (← fV3 j "ang"))
+  else pure (.v2 (axisOf (← fStr j "axis")) (← fStr j "u") (← fStr j "v") (← fStr j "zoom"))
+
+def jview : View → Json
+  | .v3 p a => Json.mkObj [("3d", jbool true), ("pos", jv3 p), ("ang", jv3 a)]
+  | .v2 ax u v z => Json.mkObj [("3d", jbool false), ("axis", jaxis ax), ("u", jstr u), ("v", jstr v), ("zoom", jstr z)]
+
+def mapOf (j : Json) : Except String VMap := do
+  let ij ← fld j "inst_vis"
+  let instVis ← if ij.isNull then pure none else some <$> ij.getInt?
+  let vj ← fld j "views"
+  let views ← if vj.isNull then pure none else some <$> (← arr vj).mapM viewOf
+  pure {
+    hammerVer := ← fInt j "hammer_ver", hammerBuild := ← fInt j "hammer_build", mapVer := ← fInt j "map_ver",
+    formatVer := ← fInt j "format_ver", prefab := ← fBool j "prefab", vis := ← (← fArr j "vis").mapM visOf,
+    snap := ← fBool j "snap", grid := ← fBool j "grid", logic := ← fBool j "logic", spacing := ← fInt j "spacing",
+    grid3d := ← fBool j "grid3d", instVis, views, spawn := ← entOf (← fld j "spawn"),
+    groups := ← (← fArr j "groups").mapM fun g => do
+      pure ({ id := ← fInt g "id", shown := ← fBool g "shown", auto := ← fBool g "auto", color := ← fV3 g "color" } : Group),
+    ents := ← (← fArr j "ents").mapM entOf, activeCam := ← fInt j "active_cam",
+    cams := ← (← fArr j "cams").mapM fun c => do pure ({ pos := ← fV3 c "pos", look := ← fV3 c "look" } : Cam),
+    cordonOn := ← fBool j "cordon_on",
+    cordons := ← (← fArr j "cordons").mapM fun c => do
+      pure ({ name := ← fStr c "name", active := ← fBool c "active", min := ← fV3 c "min", max := ← fV3 c "max" } : Cordon),
+    quickhide := ← fInt j "quickhide" }
+
+def jmap (m : VMap) : Json :=
+  Json.mkObj [
+    ("hammer_ver", jint m.hammerVer), ("hammer_build", jint m.hammerBuild), ("map_ver", jint m.mapVer),
+    ("format_ver", jint m.formatVer), ("prefab", jbool m.prefab), ("vis", jarr (m.vis.map jvis)),
+    ("snap", jbool m.snap), ("grid", jbool m.grid), ("logic", jbool m.logic), ("spacing", jint m.spacing),
+    ("grid3d", jbool m.grid3d),
+    ("inst_vis", match m.instVis with
+      | none => Json.null
+      | some v => jint v),
+    ("views", match m.views with
+      | none => Json.null
+      | some vs => jarr (vs.map jview)),
+    ("spawn", jent m.spawn),
+    ("groups", jarr (m.groups.map fun g =>
+      Json.mkObj [("id", jint g.id), ("shown", jbool g.shown), ("auto", jbool g.auto), ("color", jv3 g.color)])),
+    ("ents", jarr (m.ents.map jent)), ("active_cam", jint m.activeCam),
+    ("cams", jarr (m.cams.map fun c => Json.mkObj [("pos", jv3 c.pos), ("look", jv3 c.look)])),
+    ("cordon_on", jbool m.cordonOn),
+    ("cordons", jarr (m.cordons.map fun c =>
+      Json.mkObj [("name", jstr c.name), ("active", jbool c.active), ("min", jv3 c.min), ("max", jv3 c.max)])),
+    ("quickhide", jint m.quickhide)]
+
+def optsOf (j : Json) : Except String ExportOpts := do
+  pure { minimal := ← fBool j "minimal", multiblend := ← fBool j "multiblend", incVersion := ← fBool j "inc" }
+
+def jresult : Except Err VMap → Json
+  | .ok m => Json.mkObj [("ok", jmap m)]
+  | .error e => Json.mkObj [("err", Json.str (toString (repr e)))]
+
+def handle (j : Json) : Except String Json := do
+  let op ← j.getObjValAs? String "op"
+  match op with
+  | "export" =>
+    let o ← optsOf (← fld j "opts")
+    let m ← mapOf (← fld j "map")
+    pure (Json.mkObj [("tree", jarr ((exportTree o m).map jkv))])
+  | "parse" =>
+    let p ← fBool j "preserve"
+    let t ← (← fArr j "tree").mapM kvOf
+    pure (jresult (parseTree p t))
+  | "project" =>
+    let o ← optsOf (← fld j "opts")
+    let m ← mapOf (← fld j "map")
+    pure (Json.mkObj [("map", jmap (project o m))])
+  | "roundtrip" =>
+    let o ← optsOf (← fld j "opts")
+    let m ← mapOf (← fld j "map")
+    pure (jresult (parseTree true (exportTree o m)))
+  | _ => throw s!"unknown op {op}"
+
+end Drv06
+
+def main : IO Unit := Wire.main Drv06.handle
